@@ -14,7 +14,7 @@ CHECKS = {
         design="5 C01, 4.2, 4.5"),
     "C16": dict(
         technique="Coq proofs that the models of the section summaries, filters, risk levels and the unified summary projection (service/*_service.go, calculateSummary) equal their recomputation-from-items specs; bucket boundaries/operators regenerated from the Go AST; ties: real generateSummary/filter functions on synthetic item lists, every number of real JSON reports recomputed from the items; formats compared in-process and via the CLI (differential test)",
-        text="Props/C16.v (19 theorems, no axioms): complexity/CBO/LCOM/dead-code/clone summaries exact, extrema meaning, top-N lists, distribution partitions the items, bucket labels, risk counts sum and match thresholds, filters sound and complete (output = filter of the echoed predicate), unified summary is a projection. Each run: ~1000 synthetic item lists through the real summary/filter code vs model vs spec; 31 JSON reports of generated projects with ~4300 numbers recomputed from their own items; ~850 in-process renders (JSON = YAML as data, CSV/text/HTML headline numbers = JSON, all formats written incl. nil sections); ~70 CLI runs.",
+        text="Props/C16.v (19 theorems, no axioms): complexity/CBO/LCOM/dead-code/clone summaries exact, extrema meaning, top-N lists, distribution partitions the items, bucket labels, risk counts sum and match thresholds, filters sound and complete (output = filter of the echoed predicate), unified summary is a projection. Each run: ~1000 synthetic item lists through the real summary/filter code vs model vs spec; 31 JSON reports of generated projects with ~4300 numbers recomputed from their own items; 7 reports of risk-lattice projects (items exactly on / 1 / 2 off every threshold in effect, default and configured thresholds, CBO classes in 10 self-reference forms): every item's risk level = classification of its own reported metric by the echoed thresholds, summary risk counts = recount of the metrics (~6000 numbers); ~850 in-process renders (JSON = YAML as data, CSV/text/HTML headline numbers = JSON, all formats written incl. nil sections); ~70 CLI runs.",
         note="partial: encoding/json, yaml.v3, encoding/csv, html/template are not modelled - the format clauses are a differential test, not a proof. C16-F1 (severity counts before the filter) repaired; C16-F2 (system.Summary never populated) open. CLI cross-run comparison is skipped when two runs of the analysis differ.",
         design="5 C16"),
     "C17": dict(
